@@ -166,8 +166,11 @@ RunFor(S, prog, n) ==
 
 \* the same, but also stopping (as a cut run) once a value outgrows `cap` digits: a squaring loop
 \* doubles its digits every round and the reference run must not follow it there
-BigValue(S, cap) == \E i \in DOMAIN S.st : \E j \in DOMAIN S.st[i] :
-                      ~IsNaN(S.st[i][j]) /\ (Len(S.st[i][j].num.mag) > cap \/ Len(S.st[i][j].den.mag) > cap)
+\* (a value is on top of its stack when it is created and the test runs after every step, so only
+\* the tops are looked at)
+BigValue(S, cap) == \E i \in DOMAIN S.st :
+                      LET v == S.st[i][Len(S.st[i])] IN
+                      ~IsNaN(v) /\ (Len(v.num.mag) > cap \/ Len(v.den.mag) > cap)
 RunCapped(S, prog, n, cap) ==
   FoldLeft(LAMBDA acc, i : IF Running(acc, prog) /\ ~BigValue(acc, cap) THEN Step(acc, prog) ELSE acc, S, [i \in 1 .. n |-> i])
 
